@@ -67,9 +67,11 @@ def families(tier):
     pool_b = boundary if quick else full
     for e in G.depth1(pool_b):
         yield f"depth1-over-{'boundary' if quick else 'full'}-literals", G.prog_print(e)
-    # (c) constant-pool interaction: ordered pairs printed in sequence
-    for a in full:
-        for b in full:
+    # (c) constant-pool interaction: ordered pairs printed in sequence (quick: over the boundary literals and the
+    # 15-bit-digit edges of the marshal long form; thorough: over the full alphabet)
+    pair_pool = full if not quick else [l for l in full if l.erg.strip("()") in ("0", "2147483647", "2147483648", "35184372088831", "1152921504606846975", "9223372036854775808", "-1", "0.0", "-0.0", "1.5")]
+    for a in pair_pool:
+        for b in pair_pool:
             p = G.Prog(a, b).add(f"print!({a.erg})", f"print({a.py})").add(f"print!({b.erg})", f"print({b.py})")
             yield "literal-pair", p
 
